@@ -8,7 +8,7 @@
        validated against `git check-ignore --no-index`. *)
 From Coq Require Import Bool Arith Ascii String List.
 From CBI Require Import Lib.Res Lib.Data Lib.C09_glob Gen.C09_tables Model.C09 Spec.C09
-                        Proofs.C09 Proofs.C09p Proofs.C09f.
+                        Proofs.C09p Proofs.C09 Proofs.C09f Proofs.C09e.
 Import ListNotations.
 Local Open Scope string_scope.
 Local Open Scope list_scope.
@@ -181,6 +181,26 @@ Theorem C09_membership_partial :
 Proof. exact membership_partial. Qed.
 Print Assumptions C09_membership_partial.
 
+(* Enumeration against the specification's member set (what the harness compares):
+   for every well-formed file system with ordinary entry names, every code base whose
+   directories are directories and whose lines pathspec accepts, when no regular file
+   falls in one of the two classes: every member file of S is yielded under its real
+   path, and every yielded path resolves to a member file of S.  (The iteration may
+   yield one file several times: under its own name and under the names of links to
+   it - C09_nonvacuous shows one.)  Missing for the full statement: the two classes. *)
+Theorem C09_enumeration_partial :
+  forall (fs : fsys) (cb : codebase) (ps : list apat) (out mem : list path),
+    wf fs -> names_plain fs ->
+    compile false (cb_lines cb) = CPats ps ->
+    (forall d, In d (cb_roots cb) -> lookup fs d = Some KDir) ->
+    (forall r root, lookup fs r = Some KFile -> find_root (cb_roots cb) r = Some root ->
+       parent_reinclude ps (rel_comps root r) = false /\ dir_reneg ps (rel_comps root r) = false) ->
+    iter fs cb = Ok out -> members fs cb = Ok mem ->
+    (forall r, In r mem -> In r out) /\
+    (forall p, In p out -> exists r, resolve_comps fs [] p = Ok r /\ In r mem).
+Proof. exact enumeration_partial. Qed.
+Print Assumptions C09_enumeration_partial.
+
 (* ---- non-vacuity ---- *)
 Definition C09_fs : fsys :=
   [ (["r"], KDir); (["r"; "x.c"], KFile); (["r"; "notes.txt"], KFile);
@@ -191,7 +211,7 @@ Definition C09_fs : fsys :=
 Definition C09_cb : codebase := {| cb_roots := [["r"]]; cb_lines := ["/x.c"; "a/*.h"; "!a/z.h"; "# c"; "bu?ld/"] |}.
 
 Example C09_nonvacuous :
-  wf C09_fs /\ clean C09_fs (rev ["r"; "a"]) /\
+  wf C09_fs /\ names_plain C09_fs /\ clean C09_fs (rev ["r"; "a"]) /\
   (forall d, In d (cb_roots C09_cb) -> lookup C09_fs d = Some KDir) /\
   (exists ps, compile false (cb_lines C09_cb) = CPats ps /\ length ps = 4 /\
      forall cs, In cs (map comps_of [["x.c"]; ["a"; "x.c"]; ["a"; "z.h"]; ["build"; "z.c"]]) ->
@@ -206,6 +226,7 @@ Example C09_nonvacuous :
   members C09_fs C09_cb = Ok [["r"; "a"; "x.c"]; ["r"; "a"; "z.h"]].
 Proof.
   split; [apply wfb_wf; vm_compute; reflexivity|].
+  split; [apply names_plainb_ok; vm_compute; reflexivity|].
   split; [vm_compute; auto|].
   split; [intros d [<-|[]]; reflexivity|].
   split.
